@@ -22,10 +22,12 @@ step by step, with the canonical form of the first full read of a fresh twin pip
 import os, gc, pickle, itertools, warnings, shutil
 
 from vf.core import Check, tmpdir, case_hash
+from vf.engines.hist import histories
 
 from coba import primitives
 from coba.context import CobaContext, NullLogger, MemoryCacher
 from coba.environments import Environments
+from coba.environments import filters as ef
 from coba.pipes import Pipes
 from coba.exceptions import CobaExit
 
@@ -37,10 +39,10 @@ warnings.simplefilter('ignore')
 _SCRATCH = tmpdir()          # created in the parent before the fork; removed by the parent's atexit
 
 A_RAW = ['full', 'p1', 'p3', 'params', 'pickle']                                      # raw pipelines
-A_RAW4 = ['full', 'p1', 'params', 'pickle']
 A_FAC = ['full', 'p1', 'p3', 'params', 'pickle', 'mat', 'cache', 'chunk', 'save']     # facade pipelines
 A_FAC7 = ['full', 'p1', 'params', 'pickle', 'mat', 'cache', 'save']
-A_FAC6 = ['full', 'p1', 'params', 'pickle', 'mat', 'cache']
+A_FAC5 = ['full', 'p1', 'pickle', 'mat', 'cache']          # the state-changing operations (deepest level; params is looked up after the last one)
+A_RAW3 = ['full', 'p1', 'pickle']
 A_FAN = ['full@0', 'full@1', 'p1@0', 'p1@1', 'params@0', 'params@1']
 READS = {'full', 'p1', 'p3', 'mat', 'save'}           # operations that pull interactions through the pipeline
 KIND = {'p1': 'part', 'p3': 'part'}                   # op -> kind used in finding keys
@@ -49,13 +51,22 @@ SRC_ALL = list(SOURCES)
 SRC_MAIN = ['lam', 'lam1h', 'lams', 'lamsp', 'lamna', 'supXY', 'supLS', 'csvF', 'arffL', 'resO', 'resF']
 SRC_FEW = ['lam', 'resO', 'lamsp', 'arffL']           # one simulated/dense, one logged, one sparse, one lazy-row/categorical source
 FAN_PREFIX = [[], ['Cache'], ['Densify'], ['Logged'], ['Take'], ['Batch']]
-FILTERS_PAIR = [f for f in FILTERS_ONE if f not in ('Chunk', 'Params', 'Where', 'Slice', 'Flatten')]     # quick: pairs over 20 filter classes
 
 
 def _reset_context():
     CobaContext.logger = NullLogger()
     CobaContext.cacher = MemoryCacher()
     CobaContext.search_paths = []
+
+
+def _fresh_process_state():
+    """Between two executions no coba object is alive any more: drop what coba keeps in process-global memos (the
+    lru_cache of Grounded.GroundedFeedback.__call__ pins every feedback object ever called, which also makes each
+    gc.collect() slower and slower).  Never called in the middle of a history."""
+    try:
+        ef.Grounded.GroundedFeedback.__call__.cache_clear()
+    except AttributeError:
+        pass
 
 
 _reset_context()
@@ -66,7 +77,7 @@ ERRORS = (Exception, CobaExit)        # CobaExit derives from BaseException (Cas
 class Fail(Exception):
     """One oracle failure inside a history: (mode, detail, step)."""
     def __init__(self, mode, what, step):
-        super().__init__(mode); self.mode = mode; self.what = what; self.step = step
+        super().__init__(mode); self.mode = mode; self.what = what; self.step = step; self.op = None
 
 
 class State:
@@ -107,49 +118,58 @@ class C04(Check):
     ID = 'C04'
     LEVEL = 'model_checking'
     ENGINE = 'HIST'
-    RULE = ('state = the history reaching it (live iterators cannot be copied): every pipeline = source x chain of built-in filters '
-            '(17 re-iterable sources: LambdaSimulation plain/seeded over dense, sparse, scalar, None-holding contexts, LinearSynthetic, '
-            'SupervisedSimulation from X,Y / ListSource rows / pairs / Csv / Arff over lists and files, ResultEnvironment from a Result and '
-            'from a file; 39 parameterisations of 25 filter classes; chains filtered by a declared type-compatibility table; facade pipelines end '
-            'in BatchSafe(Finalize); "fan" pipelines = two shuffle siblings sharing source and upstream filters) is rebuilt from its descriptor '
-            'for every history and EVERY operation sequence over {full read, partial read of 1 / 3 items then drop+gc, params, pickle round '
-            'trip, materialize, cache, chunk, save/from_save} up to the depth bound is executed (no merging, no sampling) and compared after '
-            'every step with the first full read of a fresh twin; a history is non-trivial when the reference read is non-empty and the history '
-            'pulls interactions through the pipeline at least twice')
+    RULE = ('state = the history reaching it (live iterators cannot be copied). A pipeline = source x chain of built-in filters, rebuilt from its '
+            f'descriptor for every history: {len(SRC_ALL)} re-iterable sources (LambdaSimulation plain/seeded over dense, one-hot, sparse, scalar and None-holding '
+            'data, LinearSynthetic, SupervisedSimulation from X,Y (classification, regression) / ListSource rows / pairs / CsvSource / ArffSource over lists and '
+            f'files, ResultEnvironment from a Result and from a file) x {len(FILTERS) - 2} parameterisations of 25 filter classes, chains pruned by a declared '
+            'type-compatibility table; "raw" = Pipes.join(source,*filters), "facade" = Environments(source).filter(..)[0] (ends in BatchSafe(Finalize)); '
+            '"siblings" = Environments(..).shuffle(n=2): two environments sharing source and upstream filter objects. Operations: full read, p1/p3 = '
+            'partial read of 1/3 items then drop+gc, params, pickle round trip, and (facade) materialize, cache, chunk, save/from_save. EVERY operation '
+            'sequence below the bound is executed on the real code (no merging, no sampling), each step compared with the first full read of a fresh twin '
+            'and with a snapshot of the caller-owned data.  Bounds (quick | thorough): bare sources, raw+facade: all histories <=3 | <=4 over the complete '
+            'alphabet (5 raw / 9 facade operations); source x 1 filter (11 main sources | all 17), raw+facade: all histories <=3 | <=4 over the '
+            'state-changing operations {full,p1,pickle,+mat,cache} each followed by a params look-up, plus all histories <=2 | <=3 over the complete '
+            'alphabet; source x 2 filters (25x25 filter classes, one parameterisation each): quick 4 sources, facade, all histories <=2 over {full,p1,params,'
+            'pickle,mat,cache,save}; thorough 11 sources, raw+facade, <=3 state-changing (<=4 for the facade pipelines of 4 sources) / <=2 complete; thorough '
+            'source x 3 stateful filters (4 sources x 7^3, facade) <=3 / <=2; siblings (bare sources + 5 one-filter prefixes): all histories <=3 | <=4 over '
+            '{full,p1,params} x {sibling 0,1}. '
+            'A history is non-trivial when the reference read is non-empty and the history pulls interactions through the pipeline at least twice')
     ASSUMPTIONS = [
-        'params before the first completed full read of the object at hand are not constrained (environments may learn params lazily)',
+        'params before the first completed full read of the object at hand are not constrained (environments may learn params lazily); afterwards they must equal the params a fresh pipeline reports after its first read',
         'identity / python type of yielded objects is not constrained: contexts and actions are hardened (Dense->list, Sparse->dict), reward and '
         'feedback functions are compared through their values on the interaction\'s actions (probes 0,1,2.5 without actions), numbers by value',
         'a pipeline whose FIRST read (fresh twin) raises is not type-compatible and is skipped (counted as rejected_pipelines)',
         'an exception from pickle.dumps/loads is an accepted rejection (the history continues on the unpickled object); what a successfully '
         'unpickled object yields is constrained',
         'two iterators of the same environment alive at the same time are outside the alphabet (an abandoned iterator is dropped and collected before the next operation)',
+        'a consumer that modifies the interaction dicts it was handed is outside the alphabet (so whether Cache hands out copies is not observable here)',
         'None seeds and one-shot (non re-iterable) inputs are outside the alphabet',
         'after save()/from_save() the reference stays the same (the facade applies Finalize once more to finalized data)',
     ]
     TECHNIQUE = ('explicit-state exploration of operation histories on one real environment object: all histories over the operation alphabet up '
                  'to the depth bound, replayed from scratch on fresh objects, each step compared with a fresh twin pipeline; caller-owned data snapshotted after every step')
     LEVEL_TEXT = ('Every history of <=3 (thorough <=4) operations is executed on the real coba pipeline for every source x filter chain of length <=1 '
-                  '(length 2: histories <=2, thorough <=3; thorough also length 3 over the stateful filters with histories <=3; sibling pairs: histories <=3/4); '
+                  '(length 2: histories <=2, thorough <=3 (<=4 on 4 sources); thorough also length 3 over the stateful filters with histories <=3; sibling pairs: histories <=3/4); '
                   'exhaustive below the bound, so the shortest re-read counterexample of every pipeline in the alphabet is found with certainty.')
     LEVEL_NOTE = ('small-scope hypothesis: 5 interactions per source, one or two parameterisations per filter, histories <=4 operations, chains <=3 filters; '
-                  'the deepest level uses the 7-operation alphabet (without p3/chunk, which are covered one level shallower); no state merging (iterators hide state)')
-    MIN_NONTRIVIAL = {'quick': 50000, 'thorough': 500000}
+                  'for chains the deepest level uses the state-changing operations only (+ a final params look-up), the complete alphabet one level shallower; '
+                  'no state merging (iterators hide state)')
+    MIN_NONTRIVIAL = {'quick': 40000, 'thorough': 400000}
     CASE_TIMEOUT = 600
 
     # -------------------------------------------------------------- enumeration (simplest first)
     @staticmethod
-    def plans(facade, depth, deep=True):
-        """-> [(alphabet, depth, need)]: all histories <=depth over the small alphabet plus all histories <=depth-1 over the
-        complete alphabet (`need`: only histories that use an operation the first plan does not have)."""
-        full, small = (A_FAC, A_FAC6) if facade else (A_RAW, A_RAW4)
+    def plans(facade, depth, deep=True, complete=None):
+        """-> [(alphabet, depth, need)]: all histories <=depth over the state-changing operations plus all histories <=`complete`
+        (default depth-1) over the complete alphabet (`need`: only histories that use an operation the first plan does not have)."""
+        full, small = (A_FAC, A_FAC5) if facade else (A_RAW, A_RAW3)
         if not deep or depth <= 2: return [(full, depth, None)]
-        return [(small, depth, None), (full, depth - 1, [o for o in full if o not in small])]
+        return [(small, depth, None), (full, complete or depth - 1, [o for o in full if o not in small])]
 
     def pipelines(self, tier):
         """-> (pipe descriptor, plans)"""
         quick = tier == 'quick'
-        d1, d2, d3 = (3, 2, None) if quick else (4, 3, 3)
+        d1 = 3 if quick else 4
         fl = [f for f in FILTERS if f not in ('Shuffle0', 'Shuffle1')]
         for facade in (False, True):
             for s in SRC_ALL:              # bare sources: the complete alphabet down to the deepest level
@@ -157,29 +177,28 @@ class C04(Check):
         for s in SRC_ALL:
             yield {'src': s, 'chain': [], 'facade': True, 'fan': True}, [(A_FAN, d1, None)]
         for facade in (False, True):
-            for s in SRC_ALL:
-                main = s in SRC_MAIN
-                if quick and not main: continue
+            for s in (SRC_MAIN if quick else SRC_ALL):
                 for f in fl:
-                    if compatible(s, [f]): yield {'src': s, 'chain': [f], 'facade': facade}, self.plans(facade, d1 if main else d1 - 1)
+                    if compatible(s, [f]): yield {'src': s, 'chain': [f], 'facade': facade}, self.plans(facade, d1)
         for s in SRC_FEW:
             for pre in FAN_PREFIX[1:]:
                 if compatible(s, pre): yield {'src': s, 'chain': pre, 'facade': True, 'fan': True}, [(A_FAN, d1, None)]
-        if quick:       # chains of two: every ordered pair of filter classes (one parameterisation each) on three sources
-            for s in SRC_FEW[:3]:
-                for f in FILTERS_PAIR:
-                    for g in FILTERS_PAIR:
-                        if compatible(s, [f, g]): yield {'src': s, 'chain': [f, g], 'facade': True}, [(A_FAC7, d2, None)]
+        if quick:       # chains of two: every ordered pair of filter classes (one parameterisation each) on four sources
+            for s in SRC_FEW:
+                for f in FILTERS_ONE:
+                    for g in FILTERS_ONE:
+                        if compatible(s, [f, g]): yield {'src': s, 'chain': [f, g], 'facade': True}, [(A_FAC7, 2, None)]
         else:
             for facade in (False, True):
                 for s in SRC_MAIN:
+                    deep4 = facade and s in SRC_FEW
                     for f in FILTERS_ONE:
                         for g in FILTERS_ONE:
-                            if compatible(s, [f, g]): yield {'src': s, 'chain': [f, g], 'facade': facade}, self.plans(facade, d2)
-        if d3:
+                            if compatible(s, [f, g]):
+                                yield {'src': s, 'chain': [f, g], 'facade': facade}, self.plans(facade, 4 if deep4 else 3, complete=2)
             for s in SRC_FEW:
                 for ch in itertools.product(FILTERS_STATEFUL, repeat=3):
-                    if compatible(s, list(ch)): yield {'src': s, 'chain': list(ch), 'facade': True}, self.plans(True, d3)
+                    if compatible(s, list(ch)): yield {'src': s, 'chain': list(ch), 'facade': True}, self.plans(True, 3)
 
     def cases(self, tier):
         for pipe, plans in self.pipelines(tier):
@@ -203,9 +222,9 @@ class C04(Check):
         if not getattr(self, '_dir', None): self.setup('quick')
         return self._dir
 
-    def build(self, pipe):
+    def build(self, pipe, reset=True):
         """Fresh real objects for a pipeline descriptor {'src' | 'mem', 'chain', 'facade', ['fan']}."""
-        _reset_context()
+        if reset: _reset_context()         # (not when a replay source builds its upstream in the middle of an operation)
         st = State()
         b = src_mem(pipe['mem']) if 'mem' in pipe else build_source(pipe['src'], self._scratch())
         flts = [make_filter(f, b.owned) for f in pipe['chain']]
@@ -306,9 +325,10 @@ class C04(Check):
             raise Fail(f'caller-owned data modified: {", ".join(names)}', f'{names[0]}: {st.snap[names[0]]!r:.200} -> {now[names[0]]!r:.200}', i)
         return None
 
-    def run_history(self, pipe, hist, refs, ref_params, acc=None):
+    def run_history(self, pipe, hist, refs, ref_params, acc=None, final_params=False):
         """Execute one history on a fresh pipeline.  -> None | Fail"""
         st = None
+        if 'mem' not in pipe: _fresh_process_state()
         try:
             try:
                 st = self.build(pipe)
@@ -318,6 +338,15 @@ class C04(Check):
                 if acc is not None: acc.transitions += 1
                 r = self.step(st, op, refs, ref_params, i)
                 if r and acc is not None: acc.count(r.split(':')[0])
+            if final_params:               # observation after the last operation (reported as one more operation `params`)
+                for j in range(2 if st.sibs else 1):
+                    if st.read_done[j]:
+                        if acc is not None: acc.transitions += 1
+                        op = f'params@{j}' if st.sibs else 'params'
+                        try:
+                            self.step(st, op, refs, ref_params, len(hist))
+                        except Fail as f:
+                            f.op = op; raise
             if acc is not None: acc.traces += 1
             return None
         except Fail as f:
@@ -366,30 +395,47 @@ class C04(Check):
                     hist, fail = h2, f2; break
         return hist, fail
 
+    def fails_anyhow(self, pipe, hist):
+        """-> the first Fail of `hist` on `pipe` (any mode, any step), else None"""
+        status, refs, ref_params, _ = self.reference(pipe)
+        if status != 'ok': return None
+        return self.run_history(pipe, hist, refs, ref_params)
+
     def blame(self, pipe, hist, fail):
-        """-> (component label, input flavour or None, Fail that names the mode, minimal history on the blamed component).  The source alone; else one filter of the chain
-        isolated on a harness-made, perfectly re-readable source that replays what a fresh upstream prefix yields; else the whole chain."""
-        chain = pipe['chain']; fam = self.family(fail.mode)
+        """-> (component label, input flavour or None, Fail that names the mode, minimal history on the blamed component).
+        (a) the bare source already fails under this history (any mode: what the filters make of it is a consequence);
+        (b) else drop filters from the chain while the failure (same family) remains;
+        (c) then isolate the shortest failing suffix of the reduced chain on a harness-made, perfectly re-readable source that
+            replays what a fresh upstream prefix yields; else the source with the reduced chain."""
+        chain = list(pipe['chain']); fam = self.family(fail.mode)
         fan = ' x shuffle(n=2)' if pipe.get('fan') else ''
         srclabel = SOURCES[pipe['src']][1]
         if not chain: return srclabel + fan, None, fail, hist
         alone = dict(pipe, chain=[])
-        f2 = self.fails_like(alone, hist, fam)
-        if f2 is not None:
-            h2, f2 = self.minimise_history(alone, hist, f2)
+        f2 = self.fails_anyhow(alone, hist)
+        if f2 is not None and f2.step >= 0:
+            h2, f2 = self.minimise_history(alone, list(hist[:f2.step + 1]), f2)
             return srclabel + fan, None, f2, h2
+        changed = True
+        while changed and len(chain) > 1:
+            changed = False
+            for k in range(len(chain)):
+                c2 = chain[:k] + chain[k + 1:]
+                f2 = self.fails_like(dict(pipe, chain=c2), hist, fam)
+                if f2 is not None:
+                    chain, fail, changed = c2, f2, True; break
         for j in range(len(chain) - 1, -1, -1):
             up = {'src': pipe['src'], 'chain': chain[:j], 'facade': False}
-            fresh = lambda up=up: list(self.build(up).env.read())
+            fresh = lambda up=up: list(self.build(up, reset=False).env.read())
             try:
                 items = fresh()
             except ERRORS:    # noqa
                 continue
-            iso = dict(pipe, chain=[chain[j]], mem=fresh)
+            iso = dict(pipe, chain=chain[j:], mem=fresh)
             f2 = self.fails_like(iso, hist, fam)
             if f2 is not None:
                 h2, f2 = self.minimise_history(iso, hist, f2)
-                return FILTERS[chain[j]][0] + fan, (flavour(items[0]) if items else 'empty'), f2, h2
+                return ' > '.join(FILTERS[f][0] for f in chain[j:]) + fan, (flavour(items[0]) if items else 'empty'), f2, h2
         return srclabel + ' > ' + ' > '.join(FILTERS[f][0] for f in chain) + fan, None, fail, hist
 
     def classify(self, pipe, hist, fail):
@@ -429,19 +475,22 @@ class C04(Check):
         cidx = acc._cur[0] if acc._cur else 0
         seen = {}                                              # failure signature -> key (classification is the expensive part)
         prev = None
-        for li, tail in enumerate(itertools.product(ops, repeat=depth - 1)):
+        for li, tail in enumerate(histories(ops, depth - 1, min_len=depth - 1)):     # maximal histories; every prefix is checked on the way
             hist = (first,) + tail
             if need and not (need & set(hist)): continue       # covered by the plan over the smaller alphabet
             lcp = 0
             if prev is not None:
                 while lcp < depth and prev[lcp] == hist[lcp]: lcp += 1
-            acc.states += depth - lcp                          # distinct histories (prefixes) reached for the first time
+            for n in range(lcp + 1, depth + 1):                # distinct histories (prefixes) reached for the first time
+                if not need or (need & set(hist[:n])): acc.states += 1
             prev = hist
-            f = self.run_history(pipe, hist, refs, ref_params, acc)
+            f = self.run_history(pipe, hist, refs, ref_params, acc, final_params=True)
             if nontrivial and sum(1 for o in hist if op_split(o)[0] in READS) >= 2:
                 acc.nontrivial.add((cidx << 20) | li)
             if f is None: continue
             acc.count('failing_histories')
+            if f.step == len(hist):                            # the look-up after the last operation failed
+                hist = hist + (f.op,)
             sig = (f.mode, tuple(KIND.get(o, o) for o in hist[:f.step + 1]))
             if sig not in seen:
                 key, mh, wp = self.classify(pipe, hist, f)
